@@ -13,11 +13,13 @@ import sys
 
 from . import common
 from . import pipeline_common as pc
+from . import c01_boundary as bd
+from . import c01_cov
 
 import cherrypy
 
 PROPERTY = 'C01'
-LEAN_TARGETS = ['CpProofs.C01', 'drv_c01']
+LEAN_TARGETS = ['CpProofs.C01', 'CpProofs.C01Boundary', 'CpProofs.C01Redirect', 'drv_c01']
 DRIVER = 'drv_c01'
 THEOREMS = [
     'CpProofs.C01.fuel_sufficient',
@@ -36,6 +38,33 @@ THEOREMS = [
     'CpProofs.C01.C01_no_leak_full_false_F2',
     'CpProofs.C01.C01_no_leak_full_false',
     'CpProofs.C01.C01_no_leak_partial',
+    # the WSGI boundary with misbehaving body iterators (lean/CpModel/WsgiBoundary.lean)
+    'CpProofs.C01Boundary.C01B_no_escape',
+    'CpProofs.C01Boundary.C01B_started_once_legal',
+    'CpProofs.C01Boundary.C01B_iter_closed_at_most_once',
+    'CpProofs.C01Boundary.C01B_close_failure_logged_at_most_once',
+    'CpProofs.C01Boundary.C01B_streamed_iter_closed_once',
+    'CpProofs.C01Boundary.C01B_no_iter_close_unless_streaming',
+    'CpProofs.C01Boundary.C01B_no_iter_close_without_close',
+    'CpProofs.C01Boundary.C01B_released_at_most_once',
+    'CpProofs.C01Boundary.C01B_released_when_closed',
+    'CpProofs.C01Boundary.status_not_bytes_rejected',
+    'CpProofs.C01Boundary.header_not_bytes_rejected',
+    'CpProofs.C01Boundary.header_bytes_accepted',
+    'CpProofs.C01Boundary.C01B_illtyped_is_trapped_500',
+    'CpProofs.C01Boundary.str_bodies_refused',
+    'CpProofs.C01Boundary.C01B_str_body_is_500',
+    'CpProofs.C01Boundary.C01B_chunks_bytes_checked',
+    'CpProofs.C01Boundary.C01B_F3_witness',
+    'CpProofs.C01Boundary.C01B_chunks_bytes_unchecked_false',
+    'CpProofs.C01Boundary.C01B_chunks_bytes_iff_checked',
+    'CpProofs.C01Boundary.C01B_chunks_bytes_partial',
+    # InternalRedirector with query strings (lean/CpModel/RedirQ.lean)
+    'CpProofs.C01Redirect.redirector_terminates',
+    'CpProofs.C01Redirect.redirector_fuel_irrelevant',
+    'CpProofs.C01Redirect.redirector_keys_nodup',
+    'CpProofs.C01Redirect.redirector_loop_revisits',
+    'CpProofs.C01Redirect.internalRedirector_terminates',
 ]
 TRUSTED_BASE = [
     'Python semantics transcribed by hand: try/except/finally nesting, exception replacement, generator protocol',
@@ -73,12 +102,75 @@ RULE = ('stream 1: fault plans as in C09 (1-3 pages, 0-5 hooks per point, outcom
 
 STATUS_RE = re.compile(r'^([1-5][0-9][0-9]) [^\r\n]*$')
 LEAK_MARKS = [b'Traceback (most recent call last)', pc.MARK.encode(), b'pipeline_common.py', b'_cprequest.py',
-              b'_cpwsgi.py', b'File "/']
+              b'_cpwsgi.py', b'File "/', b'c01_boundary.py']
+
+
+def probe_boundary_tables():
+    """Execute AppResponse.__init__ / __next__ and ResponseBody.__set__ on tampered values (bounded by the
+    guards of c01_boundary.run_real: a tree on which a probe hangs or lets an exception escape keeps the entry of
+    the unchanged code, and the check proper reports the misbehaviour with a replayable plan)."""
+    def trapped_500(plan):
+        obs = bd.run_real(plan)
+        if obs['hang'] or obs['escaped'] or not obs['starts']:
+            return True
+        st = obs['starts'][-1][0]
+        return isinstance(st, str) and st[:1] == '5'
+    status_kinds = ['keep', 'str', 'none', 'int']
+    hdr_kinds = ['bytes', 'strkey', 'strval', 'unival', 'strpair', 'triple', 'nonpair', 'intval', 'nolist']
+    st_rej = [i for i, k in enumerate(status_kinds) if trapped_500(bd.b_plan(tamper=(k, 'none')))]
+    hd_rej = [i for i, k in enumerate(hdr_kinds) if trapped_500(bd.b_plan(tamper=('keep', k)))]
+    obs = bd.run_real(bd.b_plan('gen', 'bsb', 0, 'ok', stream=1))
+    checked = not any(not isinstance(c, bytes) for c in obs['chunks'])
+    body_kinds = [('bytes', ''), ('str', ''), ('none', ''), ('list', 'bb'), ('list', 'bs'), ('tuple', 'bs'), ('gen', 'b'),
+                  ('nonit', ''), ('str0', '')]
+    refused = []
+    for i, (sh, items) in enumerate(body_kinds):
+        # streaming: nothing but ResponseBody.__set__ looks at the value before start_response
+        obs = bd.run_real(bd.b_plan(sh, items, 0, 'ok', stream=1, meth='head'))
+        st = obs['starts'][0][0] if obs['starts'] else '500'
+        if not (isinstance(st, str) and st[:1] == '2'):
+            refused.append(i)
+    return {'chunk_checked': checked, 'status_rejected': st_rej, 'hdr_rejected': hd_rej, 'body_refused': refused}
+
+
+C01_TABLES = """/-!
+  GENERATED by harness/c01.py (tables) from the live modules under the repository on every run of the
+  C01 check - do not edit.  Every entry was obtained by executing the real code: `AppResponse.__init__`
+  with a tampered `response.output_status` / `response.header_list`, `AppResponse.__next__` on a body
+  that yields a `str`, `ResponseBody.__set__` on sample values.
+-/
+namespace CpModel.Gen.C01
+
+/-- does iterating the WSGI iterable refuse (exception -> trapper) a chunk that is not a byte string? -/
+def chunkTypeChecked : Bool := %s
+
+/-- kinds of `response.output_status` that make `AppResponse.__init__` raise
+    (0 bytes, 1 str, 2 None, 3 int) -/
+def statusKindsRejected : List Nat := %s
+
+/-- kinds of one item of `response.header_list` that make `AppResponse.__init__` raise
+    (0 (bytes, bytes), 1 (str, bytes), 2 (bytes, str), 3 (bytes, non-Latin-1 str), 4 (str, non-Latin-1 str),
+     5 a triple, 6 an int, 7 (bytes, int), 8 `header_list = None`) -/
+def headerKindsRejected : List Nat := %s
+
+/-- values `ResponseBody.__set__` refuses
+    (0 bytes, 1 str, 2 None, 3 list of bytes, 4 list containing a str, 5 tuple containing a str,
+     6 generator, 7 int, 8 empty str) -/
+def bodyKindsRefused : List Nat := %s
+
+end CpModel.Gen.C01
+"""
 
 
 def tables(ctx):
-    """Finite tables of the anchored code, regenerated by executing it (lean/CpModel/Gen/PipelineTables.lean)."""
-    return pc.tables(ctx)
+    """Finite tables of the anchored code, regenerated by executing it (lean/CpModel/Gen/PipelineTables.lean,
+    lean/CpModel/Gen/C01Tables.lean)."""
+    out = dict(pc.tables(ctx))
+    t = probe_boundary_tables()
+    lst = lambda l: '[' + ', '.join(map(str, l)) + ']'
+    out['CpModel/Gen/C01Tables.lean'] = C01_TABLES % ('true' if t['chunk_checked'] else 'false', lst(t['status_rejected']),
+                                                      lst(t['hdr_rejected']), lst(t['body_refused']))
+    return out
 
 
 # ----------------------------------------------------------------------------------------------
@@ -195,6 +287,60 @@ def oracle(plan, obs):
     if obs['escaped'] or not obs['starts']:
         return bad
     why = demand_5xx(plan, obs)
+    if why:
+        status = obs['starts'][-1][0]
+        code = int(status[:3]) if isinstance(status, str) and status[:3].isdigit() else 0
+        if code < 500:
+            bad.append(('%s but the client was told %r' % (why, status), 'unexpected_failure_not_5xx'))
+    lk = leak(obs)
+    if lk:
+        bad.append(lk)
+    return bad
+
+
+# ----------------------------------------------------------------------------------------------
+# oracle for the boundary plans (harness/c01_boundary.py)
+# ----------------------------------------------------------------------------------------------
+PROBE_ITEMS = ('VP-STR-CHUNK;', 7)
+
+
+def demand_5xx_b(plan):
+    """B-plans: when does the statement demand a 5xx status?  Only failures that happen before the response is
+    started (afterwards the status is on the wire already)."""
+    if plan['k'] != 'b':
+        return None
+    b = plan['body']
+    sh, items = b['shape'], b['items']
+    if 'encode' not in plan['tools'] and (sh in ('str', 'str0') or (sh == 'list' and 's' in items)):
+        return 'the handler returned a str body'
+    if plan['stream'] or plan['cl']:
+        return None
+    if sh == 'nonit':
+        return 'the handler returned a non-iterable body'
+    if sh in bd.ITERATING:
+        fails = ('x' in items or (b['end'] and sh != 'gen') or (sh == 'gen' and b['close'] == 'raise')
+                 or (sh == 'file' and b['close'] == 'raise'))
+        if fails:
+            return 'the body iterator raised while the response was being put together'
+    return None
+
+
+def oracle_b(plan, obs):
+    if obs['hang']:
+        kind = obs['hang'].split(':')[0]
+        return [('the application never answered (%s)' % obs['hang'],
+                 'hang:%s' % ('internal_redirect_loop' if (kind == 'requests' and plan['k'] == 'r') else kind))]
+    bad = []
+    for what, sig in wellformed(obs):
+        if sig == 'non_bytes_chunk':
+            odd = [c for c in obs['chunks'] if not isinstance(c, bytes)]
+            if all(any(c == x and type(c) is type(x) for x in PROBE_ITEMS) for c in odd):
+                # the handler's own item reached the server unexamined
+                sig = 'non_bytes_chunk:body_item_passed_through'
+        bad.append((what, sig))
+    if obs['escaped'] or not obs['starts']:
+        return bad
+    why = demand_5xx_b(plan)
     if why:
         status = obs['starts'][-1][0]
         code = int(status[:3]) if isinstance(status, str) and status[:3].isdigit() else 0
@@ -512,6 +658,103 @@ def check_plans(ctx, plans, compare=True, label='gen'):
                 ctx.disagree({'plan': plan}, res['req_tb'], m['req_tb'], "last request's show_tracebacks differs")
 
 
+def observe_b(plan):
+    obs = bd.run_real(plan)
+    return {'fails': oracle_b(plan, obs), 'canon': bd.canon_real(plan, obs), 'status': [s[0] for s in obs['starts']],
+            'nreq': len(obs['reqs']), 'hang': obs['hang'], 'escaped': obs['escaped'],
+            'nonbytes': any(not isinstance(c, bytes) for c in obs['chunks'])}
+
+
+def _observe_b_chunk(plans):
+    return [observe_b(p) for p in plans]
+
+
+def _b_nontrivial(plan):
+    if plan['k'] == 'r':
+        return any(plan['pages'].values())
+    b = plan['body']
+    return (b['shape'] not in ('bytes', 'none', 'bytes0') or plan['tamper'] != ['keep', 'none'] or plan['closes'] != 1
+            or plan['reads'] is not None)
+
+
+def check_bplans(ctx, plans, compare=True, label='boundary'):
+    """B-/R-plans: oracle on the real WSGI boundary, then the comparison with the Lean boundary models."""
+    plans = list(plans)
+    if not plans:
+        return
+    CHUNK = 2000
+    if len(plans) > CHUNK:
+        for i in range(0, len(plans), CHUNK):
+            if len(ctx.oracle_failures) >= 20 or (len(ctx.disagreements) >= 20 and not ctx.searching):
+                ctx.note('stopped early after %d failures' % (len(ctx.oracle_failures) + len(ctx.disagreements)))
+                return
+            check_bplans(ctx, plans[i:i + CHUNK], compare=compare, label=label)
+        return
+    lines = [bd.plan_line(p) for p in plans]
+    cmp_idx = [i for i, p in enumerate(plans) if bd.model_comparable(p)] if compare else []
+    model = ctx.model([lines[i] for i in cmp_idx]) if cmp_idx else None
+    mdl = dict(zip(cmp_idx, model)) if model is not None else {}
+    results = _observe_b_chunk(plans)
+    shrunk = 0
+    hangs = 0
+    for idx, (plan, res) in enumerate(zip(plans, results)):
+        ctx.case({'bplan': lines[idx]}, nontrivial=_b_nontrivial(plan), key=lines[idx])
+        ctx.count('stream:' + label)
+        if plan['k'] == 'b':
+            ctx.count('b_shape:%s' % plan['body']['shape'])
+            ctx.count('b_consume:reads=%s,closes=%s' % (bd.opt(plan['reads']) if plan['reads'] in (None, 0) else 'k',
+                                                       plan['closes'] if plan['closes'] < 2 else '2+'))
+            ctx.count('b_stream:%d' % plan['stream'])
+            ctx.count('b_tools:%s' % ('+'.join(plan['tools']) or 'none'))
+            if plan['tamper'] != ['keep', 'none']:
+                ctx.count('b_tampered_status_or_header')
+            if res['nonbytes']:
+                ctx.count('b_non_bytes_chunk_delivered')
+        else:
+            ctx.count('r_requests:%s' % (res['nreq'] if res['nreq'] < 5 else '5+'))
+            ctx.count('r_start_query:%s' % ('yes' if plan['start'][1] else 'no'))
+        for st in res['status'][-1:]:
+            ctx.count('status:%sxx' % (st[:1] if isinstance(st, str) else '?'))
+        if len(res['status']) == 2:
+            ctx.count('trapper_midstream')
+        seen = set()
+        for what, sig in res['fails']:
+            if sig in seen:
+                continue
+            seen.add(sig)
+            case = {'bplan': plan}
+            if sig.startswith('hang'):
+                hangs += 1
+            if ctx.match_known(sig) is None and shrunk < 3 and hangs <= 3:
+                shrunk += 1
+                small = bd.shrink(plan, lambda c: any(s2 == sig for _, s2 in oracle_b(c, bd.run_real(c))))
+                fs = [w for w, s2 in oracle_b(small, bd.run_real(small)) if s2 == sig]
+                if fs:
+                    case, what = {'bplan': small, 'shrunk_from': lines[idx]}, fs[0]
+            ctx.oracle_fail(case, what, sig)
+        if hangs > 3:
+            ctx.note('stopped after %d runs that never answered' % hangs)
+            return
+        if idx in mdl:
+            ctx.compared()
+            if mdl[idx] == 'bad-op':
+                raise common.HarnessError('the driver does not understand %s' % lines[idx])
+            if any(ctx.match_known(s2) is None for _, s2 in res['fails']):
+                continue
+            m = bd.canon_model(plan, bd.parse_model(mdl[idx]))
+            if m != res['canon']:
+                diff = sorted(k for k in m if m[k] != res['canon'].get(k))
+                ctx.disagree({'bplan': plan}, res['canon'], m, 'boundary observables differ: %s' % ','.join(diff))
+
+
+def boundary_plans(ctx, n_b, n_r):
+    plans = bd.grid_b_plans(ctx.quick()) + bd.grid_r_plans(ctx.quick())
+    ctx.extra['boundary_grid_plans'] = len(plans)
+    plans += [bd.gen_b_plan(ctx.rng) for _ in range(n_b)]
+    plans += [bd.gen_r_plan(ctx.rng) for _ in range(n_r)]
+    return plans
+
+
 def check_environs(ctx, n):
     for _ in range(n):
         case = gen_environ(ctx.rng)
@@ -558,15 +801,42 @@ def corpus_plans():
     if os.path.isdir(d):
         for f in sorted(os.listdir(d)):
             if f.endswith('.json'):
-                out.append(json.load(open(os.path.join(d, f)))['plan'])
+                c = json.load(open(os.path.join(d, f)))
+                if 'plan' in c:
+                    out.append(c['plan'])
+    return out
+
+
+def _corpus_cases():
+    d = os.path.join(common.CORPUS, PROPERTY)
+    out = []
+    if os.path.isdir(d):
+        for f in sorted(os.listdir(d)):
+            if f.endswith('.json'):
+                out.append(json.load(open(os.path.join(d, f))))
     return out
 
 
 def run(ctx):
+    cov = c01_cov.Coverage()
+    cov.start()
+    try:
+        _run(ctx)
+    finally:
+        cov.stop()
+        cov.report(ctx)
+
+
+def _run(ctx):
     for e in ctx.known:
         if e.get('status') == 'known':
-            check_plans(ctx, [e['witness']['plan']], label='known')
+            if 'bplan' in e['witness']:
+                check_bplans(ctx, [e['witness']['bplan']], label='known')
+            else:
+                check_plans(ctx, [e['witness']['plan']], label='known')
     check_plans(ctx, corpus_plans(), label='corpus')
+    check_bplans(ctx, [c['bplan'] for c in _corpus_cases() if 'bplan' in c], label='corpus')
+    check_bplans(ctx, boundary_plans(ctx, ctx.budget(1200, 60000), ctx.budget(800, 40000)), label='boundary')
     singles = single_fault_plans(ctx.quick())
     check_plans(ctx, singles, label='single-fault')
     ctx.extra['exhaustive_single_fault_placements'] = len(singles)
@@ -583,6 +853,13 @@ def run(ctx):
 
 def search(ctx, around=None):
     rng = ctx.rng
+    # first the places where a broken correspondence most often has a concrete failing input: redirect chains /
+    # loops with query strings and misbehaving body iterators at the WSGI boundary
+    plans = bd.grid_r_plans(False) + bd.grid_b_plans(False)
+    plans += [bd.gen_r_plan(rng) for _ in range(6000)] + [bd.gen_b_plan(rng) for _ in range(6000)]
+    check_bplans(ctx, plans, compare=False, label='search-boundary')
+    if ctx.oracle_failures:
+        return
     check_plans(ctx, single_fault_plans(False), compare=False, label='search')
     if not ctx.oracle_failures:
         plans = []
@@ -607,6 +884,22 @@ def replay(ctx, case):
         for what, sig in oracle_environ(c, obs):
             print('oracle :', sig, '-', what)
             ctx.oracle_fail(case, what, sig)
+        return
+    if 'bplan' in case:
+        plan = case['bplan']
+        obs = bd.run_real(plan)
+        line = bd.plan_line(plan)
+        print('plan   :', line)
+        print('impl   :', [(s_[0], s_[2]) for s_ in obs['starts']], 'escaped=%s' % obs['escaped'], 'hang=%s' % obs['hang'],
+              'requests=%s' % (obs['urls'][:6],), 'chunks=%s' % ([c[:60] if isinstance(c, bytes) else c for c in obs['chunks'][:4]],),
+              bd.canon_real(plan, obs))
+        if bd.model_comparable(plan):
+            m = ctx.model([line])
+            if m:
+                print('model  :', m[0])
+        for what, sig in oracle_b(plan, obs):
+            print('oracle :', sig, '-', what)
+        check_bplans(ctx, [plan], label='replay')
         return
     plan = case['plan']
     if case.get('validator'):
